@@ -89,6 +89,7 @@ VARIANTS = {
     'Cow': ['Borrowed', 'Owned'],
     'Ordering': ['Less', 'Equal', 'Greater'],
     'ControlFlow': ['Continue', 'Break'],
+    'CoderResult': ['InputEmpty', 'OutputFull'],
 }
 
 
